@@ -133,6 +133,9 @@ claim("C04", "Compartments",
       "DESIGN.md §5 C04")
 
 ENGINES = [
+    {"name": "ParamHistory", "path": "spec/ParamHistory.tla", "serves_properties": ["C17"], "kind_free_text": "growth beyond the listed properties: parameter history and restore (append / restore / save-load over two label tuples; AppendOnly, LabelsFixed, ErrorsArePure, RestoreIsRecord, OriginUnobservable) + ParamHistoryEmit; harness/x04.py (./check X04) replays every transition on a real ParameterHistory + Parameters pair"},
+    {"name": "ReduceTrace", "path": "spec/ReduceTrace.tla", "serves_properties": ["C08", "C02"], "kind_free_text": "trace acceptor over prepared/stacked events of real matrix providers (Objective!ReduceLabels block by block); harness/reduce_trace.py, run by ./check C08"},
+    {"name": "ClpLinkTrace", "path": "spec/ClpLinkTrace.tla", "serves_properties": ["C09"], "kind_free_text": "trace acceptor over aligned events of real linked data providers (ClpLink actions from the recorded axes; stack composition); harness/c09_trace.py, run by ./check C09"},
     {"name": "ProjectItems", "path": "spec/ProjectItems.tla", "serves_properties": [], "kind_free_text": "growth beyond the listed properties: name resolution of project item registries (short names, ambiguity, shadowing) + ProjectItemsEmit; harness/x03.py (./check X03)"},
     {"name": "OptHistory", "path": "spec/OptHistory.tla", "serves_properties": [], "kind_free_text": "growth beyond the listed properties: optimisation history parsed from scipy's verbose output (line-kind state machine) + OptHistoryEmit; harness/x02.py (./check X02)"},
     {"name": "Pipeline", "path": "spec/Pipeline.tla", "serves_properties": [], "kind_free_text": "growth beyond the listed properties: preprocessing pipeline (persistent builder, composition, mean-zero) + PipelineEmit; harness/x01.py (./check X01)"},
